@@ -16,7 +16,7 @@ from .. import infra
 from ..data import U_POOL, get_at, positions, set_at, skeletons
 from ..grammar import gen_types, well_formed
 from ..refmodel.deser import Ctx
-from ..tast import Obj, short, walk
+from ..tast import INT, STR, AnyT, Coll, F, MapT, Obj, Opt, Std, Tup, Uni, short, walk
 from . import deser_common as dc
 
 import apischema
@@ -25,7 +25,9 @@ from apischema import ValidationError
 PROP = "C03"
 RULE = (
     "types: grammar of C01 (quick: level<=1 plus the (outer,inner) pairs over one atom; thorough: all pairs over 4 atom "
-    "classes); data: every skeleton, and every skeleton with one position (root included) replaced by each of the wild atoms "
+    "classes) plus every standard-library type with a built-in conversion (uuid, date, datetime, time, Decimal, bytes, Path, "
+    "ip addresses / interfaces / networks, re.Pattern, deque) bare and under list / set / Optional / dict value / dict key / "
+    "union / tuple / dataclass field, plus sets of Any and of unions with unhashable images; data: every skeleton, and every skeleton with one position (root included) replaced by each of the wild atoms "
     "(NaN, +-inf, +-10**400, 2**63, str/int/float/dict/list subclasses, tuple, bytes, bytearray, set, frozenset, complex, "
     "object(), dicts with int/None/tuple/bytes/mixed keys, 60-deep list, unhashable values) and each JSON atom / coercible "
     "string; options: coerce x additional_properties x fall_back_on_default x no_copy (16 vectors at level<=1, 4 at level 2). "
@@ -78,6 +80,13 @@ def wild_atoms() -> List[tuple]:
         ("huge", lambda: 10 ** 400),
         ("-huge", lambda: -(10 ** 400)),
         ("2**63", lambda: 2 ** 63),
+        ("huge5000", lambda: 10 ** 5000),  # beyond the int -> str conversion limit (4300 digits)
+        ("b64bad", lambda: "a"),
+        ("b64pad", lambda: "ab=c"),
+        ("notadate", lambda: "2020-13-45"),
+        ("slashes", lambda: "1/2/3"),
+        ("openparen", lambda: "("),
+        ("nulchar", lambda: "a\x00b"),
         ("StrSub", lambda: StrSub("a")),
         ("IntSub", lambda: IntSub(1)),
         ("FloatSub", lambda: FloatSub(1.5)),
@@ -159,11 +168,18 @@ def _alarm(signum, frame):
     raise Timeout()
 
 
+def _safe_repr(d, wkind):
+    try:
+        return repr(d)[:300]
+    except ValueError:  # int -> str digit limit (the harness must not lift it: it is part of the environment)
+        return f"<datum containing {wkind}>"
+
+
 def check_one(case, method, d, st, optkey, wkind, depth):
     before = snap(d)
     kind, out = dc.run_impl(method, d)
     outcome = kind
-    base = {"label": case.label, "type": short(case.spec), "options": list(map(str, optkey)), "datum": (repr(d)[:300] if depth < 40 else f"<{wkind}>"), "wild": wkind}
+    base = {"label": case.label, "type": short(case.spec), "options": list(map(str, optkey)), "datum": (_safe_repr(d, wkind) if depth < 40 else f"<{wkind}>"), "wild": wkind}
     if kind == "exc":
         if isinstance(out, Timeout):
             raise out
@@ -211,7 +227,7 @@ def check_one(case, method, d, st, optkey, wkind, depth):
 
 def run_type(i, label, spec, tier, st):
     env_ctx = Ctx(env=dc.build_env(spec))
-    if well_formed(spec, env_ctx):
+    if well_formed(spec, env_ctx) and not label.startswith(("std", "anyset:")):
         return
     lvl = dc.level_of(label)
     case = dc.Case(label, spec)
@@ -280,6 +296,41 @@ def run_type(i, label, spec, tier, st):
     dc.periodic_reset(i)
 
 
+def extra_types():
+    """standard-library types handled by apischema's own (not user-supplied) conversions, and sets of
+    elements whose JSON image can be unhashable: outside the C01 grammar (no reference model for their
+    values) but inside C03's "every supported type"; only the crash-freedom / purity oracles apply"""
+    from ..data import STD_VALID
+
+    out = []
+    for k in STD_VALID:
+        t = Std(k)
+        out += [
+            (f"std:{k}", t),
+            (f"std_list[{k}]", Coll("list", t)),
+            *([(f"std_set[{k}]", Coll("set", t))] if k != "deque_int" else []),  # a deque is not hashable
+            (f"std_opt[{k}]", Opt(t)),
+            (f"std_dictval[{k}]", MapT("dict", STR, t)),
+            (f"std_union_int[{k}]", Uni((INT, t))),
+            (f"std_union_rev[{k}]", Uni((t, INT))),
+            (f"std_tuple[{k}]", Tup((t, INT))),
+            (f"std_obj[{k}]", Obj("dataclass", "S_" + k, (F("a", t), F("b", INT, default="0", has_default=True, default_value=0)))),
+        ]
+        if k not in ("decimal", "deque_int"):
+            out.append((f"std_key[{k}]", MapT("mapping", t, INT)))
+    any_t = AnyT()
+    out += [
+        ("anyset:set", Coll("set", any_t)),
+        ("anyset:frozenset", Coll("frozenset", any_t)),
+        ("anyset:absset", Coll("absset", any_t)),
+        ("anyset:set_union_list", Coll("set", Uni((INT, Coll("list", INT))))),
+        ("anyset:set_union_dict", Coll("frozenset", Uni((STR, MapT("dict", STR, INT))))),
+        ("anyset:list_set", Coll("list", Coll("set", any_t))),
+        ("anyset:obj", Obj("dataclass", "S_anyset", (F("a", Coll("set", any_t)),))),
+    ]
+    return out
+
+
 def quick_filter(label: str) -> bool:
     """quick tier: level<=1 everything; level 2 only over the 'int' and 'float' atom representatives"""
     return dc.level_of(label) <= 1 or label.endswith("[int]]") or label.endswith("[float]]")
@@ -293,6 +344,17 @@ def work(tier, widx, nworkers, st, extra):
         signal.alarm(120)
         try:
             run_type(i, label, spec, tier, st)
+        except Timeout:
+            st.violation({"label": label, "signature": {"kind": "timeout", "shape": dc.shape_of(label)}, "what": "deserialize did not terminate within the horizon (120 s per type)"})
+        finally:
+            signal.alarm(0)
+    only = __import__("os").environ.get("VERIF_ONLY")
+    for j, (label, spec) in enumerate(extra_types()):
+        if j % nworkers != widx or (only and only not in label):
+            continue
+        signal.alarm(120)
+        try:
+            run_type(10 ** 6 + j, label, spec, tier, st)
         except Timeout:
             st.violation({"label": label, "signature": {"kind": "timeout", "shape": dc.shape_of(label)}, "what": "deserialize did not terminate within the horizon (120 s per type)"})
         finally:
